@@ -10,3 +10,15 @@ pub mod traverse;
 mod validation;
 
 pub use parser::{ParseFileResult, Parser};
+
+/// Verification hooks (feature `verif-hooks`): re-exports of the add-only wrappers.
+#[cfg(feature = "verif-hooks")]
+pub mod verif_hooks {
+    pub use crate::ast::verif as ast;
+    pub use crate::diagnostic::verif as diagnostic;
+    pub use crate::javadoc::verif as javadoc;
+    pub use crate::traverse::verif as traverse;
+    pub use crate::validation::verif as validation;
+    pub use lalrpop_util::lexer::Token;
+    pub use line_col::LineColLookup;
+}
